@@ -313,6 +313,26 @@ fn pair(rng: &mut Rng, class: &str) -> (D, D) {
         (b, a)
       }
     }
+    // a short operand (often a power of ten) and a long one whose leading digit lies 32..37 places below the short
+    // one's leading digit, mostly of opposite sign: the exact result borrows through the whole 34-digit window
+    // (1 - 6.67E-35 = 0.9999…9999|333), the window's edge being exactly where an implementation may stop looking
+    "borrow" => {
+      let la = 1 + rng.below(3) as usize;
+      let ca = if rng.chance(1, 2) { format!("1{}", "0".repeat(la - 1)) } else { digits(rng, la) };
+      let ea = rng.range(-3000, 3000) as i32;
+      let neg = rng.chance(1, 2);
+      let a = D::new(neg, &ca, ea);
+      let top = ea + la as i32 - 1;
+      let g = 32 + rng.below(6) as i32;
+      let lb = if rng.chance(3, 4) { 34 } else { 1 + rng.below(34) as usize };
+      let cb = if rng.chance(1, 4) { nines(lb) } else { digits(rng, lb) };
+      let b = D::new(if rng.chance(3, 4) { !neg } else { neg }, &cb, top - g - (lb as i32 - 1));
+      if rng.chance(1, 2) {
+        (a, b)
+      } else {
+        (b, a)
+      }
+    }
     // cancellation
     "cancel" => {
       let len = 2 + rng.below(33) as usize;
@@ -390,7 +410,7 @@ fn pair(rng: &mut Rng, class: &str) -> (D, D) {
   }
 }
 
-const CLASSES: [&str; 10] = ["tie", "sticky", "far", "cancel", "zero", "subnormal", "edge", "small", "digits", "digits34"];
+const CLASSES: [&str; 11] = ["tie", "sticky", "far", "borrow", "cancel", "zero", "subnormal", "edge", "small", "digits", "digits34"];
 const BINARY: [&str; 6] = ["add", "sub", "mul", "div", "remainder", "modulo"];
 /// operations whose specification verdict is about the FeelNumber method, not the dec.rs wrapper
 const FN_SPEC_OPS: [&str; 3] = ["even", "odd", "isint"];
@@ -779,6 +799,7 @@ pub fn run(cfg: &Cfg) -> Report {
     let bases = [
       "1.0001", "0.9999", "2", "3", "1.5", "7", "0.5", "1.000000001", "12345.678", "-2", "-1.5", "9.99", "1234567890123456789012345678901234", "0.1", "1.1", "99", "1.0000000000000000000000000000000001",
       // short coefficients whose small powers land in the highest and the lowest decades of the range
+      "0", "0.0", "-0", "0E+5",
       "2E+3072", "2.5E+3072", "1E+2048", "8E+6144", "9.9E+6144", "1E+6144", "3E+3072", "1E-6144", "1E-6143", "2E-3072", "5E-2048", "4E-6143", "1E+3072", "-3E+2048",
     ];
     let exps: [i64; 22] = [0, 1, 2, 3, 5, 7, 10, 17, 64, 100, 120, 365, 1000, 4000, 4096, 10000, 20000, -1, -2, -3, -10, -100];
@@ -815,6 +836,28 @@ pub fn run(cfg: &Cfg) -> Report {
     let mut not_finite: Vec<(D, i64, D)> = vec![];
     for (a, n, nrep) in &pow_cases {
       let raw = guarded(|| show_quad(&dec_power(&a.quad(), &nrep.quad())));
+      // the FEEL operator on the same operands: the power of its operands when that is a finite number, null otherwise
+      // (0 ** 0, 0 ** -1: undefined)
+      if let (Some(fa), Some(fnn)) = (number_of(a), number_of(nrep)) {
+        let text = format!("{} ** {}", a.to_sci_input(), nrep.to_sci_input());
+        let fv = guarded(|| feel_eval(&[("a", Value::Number(fa)), ("n", Value::Number(fnn))], "a ** n"));
+        rep.hit("op:powint-feel");
+        match (&raw, fv) {
+          (Ok(Some(DecV::Fin(r))), Ok(Ok(Value::Number(x)))) => {
+            if observe(&x).map(|v| v.reduced()) != Some(DecV::Fin(r.clone()).reduced()) {
+              rep.disagree(Kind::ImplVsSpec, "pow", "FEEL ** differs from the power of its operands", &text, &format!("{:?}", x), &r.to_sci_input());
+            }
+          }
+          (Ok(Some(DecV::Fin(r))), Ok(Ok(other))) => {
+            rep.disagree(Kind::ImplVsSpec, "pow", "FEEL ** is not a number although the power of its operands is a finite number", &text, &value_show(&other), &r.to_sci_input())
+          }
+          (Ok(_), Ok(Ok(Value::Null(_)))) => rep.hit("powint-feel:null"),
+          (Ok(_), Ok(Ok(other))) => rep.disagree(Kind::ImplVsSpec, "pow", "FEEL ** of an undefined or out-of-range power is not null", &text, &value_show(&other), "null"),
+          (_, Ok(Err(e))) => rep.disagree(Kind::ImplVsSpec, "pow", "FEEL ** does not evaluate", &text, &e, "a number or null"),
+          (_, Err(p)) => rep.disagree(Kind::ImplVsSpec, "pow", "FEEL ** panics", &text, &p, "a number or null"),
+          (Err(_), _) => {}
+        }
+      }
       match raw {
         Ok(Some(DecV::Fin(r))) => {
           reqs.push(format!("(c02 judgepow {} {} {})", a.wire(), n, r.wire()));
